@@ -162,3 +162,16 @@ chk("C16",
     "x reference position x sector, complete net snapshots; bulk vs one-by-one; std type vs parameters.",
     "The flow words flatten branches / loops in source order; value semantics of the written rows are covered by the enumeration.",
     "Lean 4 proof over source-generated flow words (kernel-decided + induction); exhaustive fault enumeration on create_*", "8/C16")
+chk("C17",
+    "Lean theorems over the reference-skeleton specification of the restructuring tools (elements = table, index, junction "
+    "references incl. controlled junctions, optional pipe reference of junction-pipe valves): reindex_junctions, reindex_pipes, "
+    "drop_pipes (with attached valves), drop_junctions (cascade), fuse_junctions each map a net without dangling references to a "
+    "net without dangling references, hence every admissible finite operation sequence does (induction over histories); "
+    "relabelling followed by its inverse is the identity (labels only). The specification is tied to the real toolbox functions "
+    "by correspondence on random operation sequences. Search: nets with junction-pipe valves, remote controlled junctions and "
+    "pipe labels coinciding with junction labels: dangling-reference check after every operation, results before vs after "
+    "relabelling, select_subnet of the supplied region.",
+    "select_subnet and the create_continuous_* index functions are covered by the search (through reindex) only; table contents "
+    "other than references are outside the skeleton.",
+    "Lean 4 proof (invariant by induction over operation histories) over a reference-skeleton model; op-sequence correspondence; "
+    "search", "8/C17")
